@@ -57,6 +57,10 @@ ABrTable ==
     /\ \E a \in 0 .. Depth, b \in 0 .. Depth, two \in BOOLEAN :
          /\ two => a = b            \* <<a, a>> default a: three arms to one label
          /\ Add(<<Cond, [o |-> "br_table", ds |-> IF two THEN <<a, a>> ELSE <<a>>, d |-> b]>>, stk, TRUE, 0, 1)
+\* a reference (null or not), br_on_null to a label, and the drop of the reference left by the fall-through
+ABrOn  == ~dead /\ Room(3)
+          /\ \E d \in 0 .. Depth, r \in {"rnull", "rfunc"} :
+                Add(<<[o |-> r], [o |-> "bron", d |-> d], [o |-> "drop"]>>, stk, FALSE, 0, 0)
 ARet   == ~dead /\ Room(1) /\ Add(<<[o |-> "return"]>>, stk, TRUE, 0, 0)
 AUnr   == ~dead /\ Room(1) /\ Add(<<[o |-> "unreachable"]>>, stk, TRUE, 0, 0)
 AThrow == ~dead /\ Room(1) /\ Add(<<[o |-> "throw"]>>, stk, TRUE, 0, 0)
@@ -84,7 +88,7 @@ ModesAt(i) ==
     \* removing an `if` without consuming its condition is a misuse (invalid by the caller's doing)
     \cup (IF o \in {"block", "loop", "else"} THEN {"empty_block_alt"} ELSE {})
     \cup (IF o \in {"block", "if", "else"} THEN {"semantic_after"} ELSE {})
-    \cup (IF o \in {"br", "br_if", "br_table"} /\ "loop" \notin Targets(i) /\ "try" \notin Targets(i) THEN {"semantic_after"} ELSE {})
+    \cup (IF o \in {"br", "br_if", "br_table", "bron"} /\ "loop" \notin Targets(i) /\ "try" \notin Targets(i) THEN {"semantic_after"} ELSE {})
 
 CodeFor(p, i, mode) ==
     IF mode \in {"empty_alternate", "empty_block_alt"} THEN <<>>
@@ -123,8 +127,14 @@ Related(a, b) ==
 APlan2 ==
     /\ done /\ Len(plan) = 1 /\ MaxPlan >= 2
     /\ plan[1].api = "iter"
-    /\ \E e \in ChoicesAt(1, FALSE) :
+    /\ \E e \in ChoicesAt(1, FALSE)
+              \* ... or the withdrawal (clear_instr_at) of what the first entry injected, through either iterator kind
+              \cup (IF plan[1].mode \in {"before", "after", "alternate"}
+                    THEN {[p |-> 1, site |-> plan[1].site, mode |-> "clear", what |-> plan[1].mode, api |-> a, code |-> <<>>, acc |-> TRUE]
+                             : a \in {"iter", "mod", "comp"}}
+                    ELSE {}) :
          /\ Len(body) <= MaxLenPairs
+            \/ e.mode = "clear"
             \/ (Related(plan[1], e) /\ plan[1].mode \in SpecialModes /\ e.mode \in SpecialModes
                 /\ {plan[1].mode, e.mode} \cap {"block_alt", "empty_block_alt"} = {})
             \* two block-alternates, one nested in the region of the other (the outer removal takes the inner with it)
@@ -135,7 +145,7 @@ APlan2 ==
          /\ plan' = Append(plan, e)
     /\ UNCHANGED <<body, stk, dead, nop, ncond, done>>
 
-Next == AOp \/ ABlock \/ ATry \/ ALoop \/ AIf \/ AElse \/ AEnd \/ ABr \/ ABrIf \/ ABrTable \/ ARet \/ AUnr \/ AThrow \/ ARCall
+Next == AOp \/ ABlock \/ ATry \/ ALoop \/ AIf \/ AElse \/ AEnd \/ ABr \/ ABrIf \/ ABrTable \/ ABrOn \/ ARet \/ AUnr \/ AThrow \/ ARCall
         \/ AFinish \/ APlan1 \/ APlan2
 Spec == Init /\ [][Next]_vars
 
